@@ -23,3 +23,9 @@ open SamVerif.Differ
 #print axioms toplevel_edits_eq
 #print axioms code_action_offered_iff
 #print axioms full_document_edit_text
+#print axioms edit_offsets_in_bnd
+#print axioms edits_ordered
+#print axioms module_edits_ordered
+#print axioms module_edits_text
+#print axioms module_diff_text
+#print axioms insert_range_is_element_end
